@@ -110,7 +110,18 @@ for stages in (["analysis"], ["ANALYSIS"], [PS.ANALYSIS], ["analysis", "store_in
     if exc is not None: bad("dryrun", "stages=%r: raised %r" % (stages, exc)); continue
     if calls or "store_blob" in k or "sync_paths" in k or res is not None or s._cache or s._paths:
         bad("dryrun", "stages=%r: dry run executed %s, events %s, returned %r" % (stages, calls, [x for x in k if x in ("store_blob","sync_paths")], res))
-    check_full("full run after dry run %r" % (stages,), *run(), s, expect_calls=["root", "nested"])
+    # between the dry run and the full run a tracked variable changes: the full run is that of the changed code
+    pipe.SCALE = 13
+    n0 = len(fails)
+    check_full("full run after dry run %r and a change of a tracked variable" % (stages,), *run(), s, expect_calls=["root", "nested"])
+    # the same on a populated store: full run, dry run, change of a tracked variable, full run (must not be served the old result)
+    pipe.SCALE = 3
+    run()
+    run(stages)
+    pipe.SCALE = 17
+    check_full("full run (SCALE=3), dry run %r, SCALE changed to 17, full run" % (stages,), *run(), s, expect_calls=["root", "nested"])
+    for f_ in fails[n0:]:
+        f_["group"] = "dryrun"  # a dry run that leaves a trace in the next evaluation is a dry-run failure
 for stages in (["analysis", "store_inspect", "eval"], ["analysis", "store_inspect", "eval", "store_commit"]):
     s = fresh(); pipe.SCALE = 4
     res, exc, ev, calls = run(stages)
